@@ -80,6 +80,7 @@ func newTreeSimple(cfg *config) tree {
 }
 
 func (t *treeSimple) output(w io.Writer, r io.Reader, cfg *config) error {
+	w = checkedWriter{w}
 	// ベンチマークを取るための
 	if cfg.noUseIterOfSimpleOutput {
 		roots, err := newRootGeneratorSimple(r).generate()
@@ -101,6 +102,7 @@ func (t *treeSimple) output(w io.Writer, r io.Reader, cfg *config) error {
 }
 
 func (t *treeSimple) outputProgrammably(w io.Writer, root *Node, cfg *config) error {
+	w = checkedWriter{w}
 	if cfg.encode != encodeDefault || cfg.dryrun {
 		if err := t.grower.grow([]*Node{root}); err != nil {
 			return err
